@@ -256,6 +256,9 @@ def run(ctx):
         if j % 10 == 0:
             sample_identities(ctx, x, [float(q) for q in qs], "rand")
             ex_binned(ctx, x, numpy.linspace(float(u[0]) - 1, float(u[-1]) + 1, 25))
+        if j == 0 and ctx.tier == "thorough" and ctx.shard == 0:
+            from ..suite import run_repo_suite
+            run_repo_suite(ctx, ["test_stats.py", "test_magnitude_tests.py", "test_evaluations.py", "test_calc.py"])
         if j % 400 == 0:
             ctx.sample({"random_sample_n": n, "kind": ["int ties", "rounded normal", "poisson", "few distinct reals"][kind],
                         "first_values": x[:8], "queries": qs})
